@@ -1256,8 +1256,61 @@ def linalg_solve(a, b):
     return _np.linalg.solve(a, b)
 
 
+SVD_HINTS = []      # candidate decompositions (U, w, Vh) supplied by a harness; see svd()
+
+
+def svd(a, full_matrices=True, compute_uv=True, **kw):
+    """contract stub for numpy.linalg.svd on symbolic matrices.  A singular value decomposition cannot be
+    computed symbolically (it needs roots), so the harness that builds the matrix also names its
+    decomposition; the stub hands it out only after *checking* the LAPACK contract on it as polynomial
+    identities: U diag(w) Vh == a, U^T U == I, Vh Vh^T == I, w non-negative and non-increasing on the path."""
+    if not core.active() or not is_objarr(a):
+        return _np.linalg.svd(a, full_matrices=full_matrices, compute_uv=compute_uv, **kw)
+    from . import polynorm
+    ctx = core.ctx()
+    m, n = a.shape
+    k = min(m, n)
+
+    def same(x, y):
+        x, y = R.lift(x), R.lift(y)
+        if x.is_concrete() and y.is_concrete():
+            return x.v == y.v
+        return polynorm.is_zero_identity(x.z3(), y.z3()) is True
+    for (U, w, Vh) in SVD_HINTS:
+        if U.shape != (m, k) or Vh.shape != (k, n) or len(w) != k:
+            continue
+        ok = all(same(sum((U[i, l] * w[l] * Vh[l, j] for l in range(k)), R(Fraction(0))), a[i, j]) for i in range(m) for j in range(n))
+        ok = ok and all(same(sum((U[l, i] * U[l, j] for l in range(m)), R(Fraction(0))), 1 if i == j else 0) for i in range(k) for j in range(k))
+        ok = ok and all(same(sum((Vh[i, l] * Vh[j, l] for l in range(n)), R(Fraction(0))), 1 if i == j else 0) for i in range(k) for j in range(k))
+        if not ok:
+            continue
+        # ordering and sign are facts of the path, not identities: they must be entailed
+        for l in range(k):
+            if not builtins.bool(R.lift(w[l]) >= 0):
+                ok = False
+        for l in range(k - 1):
+            if not builtins.bool(R.lift(w[l]) >= R.lift(w[l + 1])):
+                ok = False
+        if ok:
+            if not compute_uv:
+                return _build_object(list(w))
+            return U.copy(), _build_object(list(w)), Vh.copy()
+    raise Unsupported('numpy.linalg.svd of a symbolic matrix without a verified decomposition')
+
+
+def finfo(dtype):
+    if isinstance(dtype, NominalDtype):
+        dtype = dtype.real if hasattr(dtype, 'real') else _np.dtype(str(dtype))
+    return _np.finfo(dtype)
+
+
+_OVER['finfo'] = finfo
+
+
 def install_linalg():
     from . import sx
+    sx.IMPORTS[('numpy.linalg', 'svd')] = svd
+    object.__getattribute__(linalg, '_over')['svd'] = svd
     sx.IMPORTS[('scipy.linalg', 'cholesky_banded')] = cholesky_banded
     sx.IMPORTS[('scipy.linalg', 'cho_solve_banded')] = cho_solve_banded
     sx.IMPORTS[('numpy.linalg', 'solve')] = linalg_solve
